@@ -23,7 +23,7 @@ def inputOfJson (j : Json) : Except String Input := do
     | .ok (.arr a) => (do let r ← a.toList.mapM pairList; pure (some r))
     | _ => pure none
   pure { root := getStrD j "root" "data", choices, choiceCols := cols, allowDup := optStr j "allow_dup",
-         survey, extHeader, extRows, f39Fixed := getBoolD j "f39_fixed" false }
+         survey, extHeader, extRows }
 
 def optJ (o : Option Str) : Json := match o with | some s => jstr s | none => Json.null
 
@@ -118,8 +118,10 @@ def opsChoices (op : String) (j : Json) : Option (Except String Json) :=
       | .error w => pure (Json.mkObj [("skipped", Json.str w)])
       | .ok fs => pure (Json.mkObj [("failures", Json.arr (fs.map failToJson).toArray)])
   | "choices.csv" => some do
-      let header ← getStrList j "header"
       let rows ← cellsListOfJson (← j.getObjVal? "rows")
+      let header ← match j.getObjVal? "header" with
+        | .ok (.arr a) => strList (.arr a)
+        | _ => pure (firstKeys rows)
       let t := itemsetsCsv header rows
       pure (Json.mkObj [("text", jstr t), ("grid", gridToJson (parseCsv t))])
   | "choices.parsecsv" => some do
